@@ -2,7 +2,7 @@
 # usage: seedcheck.sh <seed-id> <worktree> "<pkgs to test>" "<demo go test args>" "<checks to run, space separated>"
 # 1. confirms the change builds, passes the existing tests of the touched packages, and that the
 #    demonstration fails with it and passes without it; 2. stores it under /verif/seeded/<id>;
-# 3. applies it to /repo, runs the named checks, undoes it.
+# 3. runs the named checks against it in a lab copy of /repo and /verif (lib/seedeval.py).
 set -u
 ID=$1; WT=$2; PKGS=$3; DEMO=$4; CHECKS=$5
 export GOFLAGS=-mod=mod GOPROXY=off GOSUMDB=off GOTOOLCHAIN=local
@@ -21,12 +21,5 @@ echo "== demo with change (expected FAIL)"
 go test -vet=off -count=1 $DEMO 2>&1 | tail -4
 echo "== demo without change (expected ok)"
 git apply -R _seed/patch.diff && go test -vet=off -count=1 $DEMO 2>&1 | tail -3; git apply _seed/patch.diff
-echo "== /verif checks against the change"
-git -C /repo apply $OUT/patch.diff || { echo "PATCH DOES NOT APPLY TO /repo"; exit 1; }
-cd /verif
-for c in $CHECKS; do
-  ./check $c > /tmp/seed_${ID}_$c.txt 2>&1; rc=$?
-  echo "check $c exit=$rc $(grep -m2 'VIOLATION' /tmp/seed_${ID}_$c.txt | cut -c1-170)"
-done
-git -C /repo checkout -- . ; git -C /repo status --short | head -3
-rm -rf /verif/replays
+echo "== /verif checks against the change (in a lab copy; /repo and /verif are not touched)"
+[ -n "$CHECKS" ] && python3 /verif/lib/seedeval.py $ID --checks "$(echo $CHECKS | tr ' ' ',')" 2>&1 | cut -c1-260
